@@ -126,6 +126,8 @@ def check_case(case, workdir=None):
 
 def strata():
     return [gen_cfg.model_and_spec(force=['many_ports', 'injected'], want_mixed=True),
+            gen_cfg.model_and_spec(force=['many_requires'], want_mixed='MSM'),
+            gen_cfg.model_and_spec(force=['many_requires'], want_mixed='SMMS'),
             gen_cfg.model_and_spec(want_mc=True, force=['many_ports']),
             gen_cfg.model_and_spec(want_mc=True),
             gen_cfg.model_and_spec(want_mc=True, force=['many_provides']),
